@@ -203,14 +203,22 @@ type violation struct {
 
 var reFrame = regexp.MustCompile(`\(?([^()\s]+):(\d+):(\d+)\)?\s*$`)
 
-// lookup returns the mapping that covers (line, col) (0-based): the last mapping on that line at or before col.
+// lookup returns the mapping that covers (line, col) (0-based): the last mapping at or before that position in
+// (line, column) order. A statement's code may span several generated lines with one mapping at its start, so
+// the search continues on earlier lines when the line itself has nothing at or before col (the way Chrome and
+// Node resolve positions; per-line consumers resolve fewer positions, which the property does not ask for).
 func lookup(byLine map[int][]mapping, line, col int) (mapping, bool) {
 	ms := byLine[line]
 	idx := sort.Search(len(ms), func(i int) bool { return ms[i].genCol > col }) - 1
-	if idx < 0 {
-		return mapping{}, false
+	if idx >= 0 {
+		return ms[idx], true
 	}
-	return ms[idx], true
+	for l := line - 1; l >= 0; l-- {
+		if ms := byLine[l]; len(ms) > 0 {
+			return ms[len(ms)-1], true
+		}
+	}
+	return mapping{}, false
 }
 
 type corpusResult struct {
@@ -223,6 +231,11 @@ type corpusResult struct {
 func checkProgram(env *jbuild.Env, pool *simpool.Pool, p *seqgen.Program, dir string, seed string, tapes int, res *corpusResult, mu *sync.Mutex) {
 	add := func(k string, n int) { mu.Lock(); res.counters[k] += n; mu.Unlock() }
 	fail := func(v violation) { mu.Lock(); res.violations = append(res.violations, v); mu.Unlock() }
+	for k, n := range p.Features {
+		if strings.HasPrefix(k, "where:") {
+			add("markers_placed:"+strings.TrimPrefix(k, "where:"), n)
+		}
+	}
 	for _, variant := range []struct {
 		name   string
 		minify bool
@@ -407,15 +420,22 @@ func checkProgram(env *jbuild.Env, pool *simpool.Pool, p *seqgen.Program, dir st
 				if p.WhereV[id] {
 					want[0].line = 14 // y.WhereV
 				}
+				stmtText := ""
+				if ls := strings.Split(p.Files["main.go"], "\n"); p.Wheres[id] >= 1 && p.Wheres[id] <= len(ls) {
+					stmtText = strings.TrimSpace(ls[p.Wheres[id]-1])
+				}
 				for fi, w := range want {
 					m, ok := lookup(byLine, locs[fi][0], locs[fi][1])
 					if !ok || !m.hasSrc {
-						fail(violation{class: "frame-unmapped", msg: fmt.Sprintf("%s build, marker %d: stack frame %d at generated %d:%d has no mapping", variant.name, id, fi, locs[fi][0]+1, locs[fi][1]+1), prog: p, tape: r.Tape, variant: variant.name})
+						fail(violation{class: "frame-unmapped", msg: fmt.Sprintf("%s build, marker %d: stack frame %d at generated %d:%d lies in unmapped code; the Go statement is at %s:%d: %s", variant.name, id, fi, locs[fi][0]+1, locs[fi][1]+1, filepath.Base(w.file), w.line, stmtText), prog: p, tape: r.Tape, variant: variant.name})
 						break
 					}
+					if alt, ok := p.WhereAlt[id]; ok && fi == 1 && sm.Sources[m.src] == w.file && m.origLine+1 == alt {
+						continue
+					}
 					if sm.Sources[m.src] != w.file || m.origLine+1 != w.line {
-						fail(violation{class: "frame-maps-to-wrong-line", msg: fmt.Sprintf("%s build, marker %d (run %d, %d suspensions): stack frame %d at generated %d:%d maps to %s:%d, but the Go statement is at %s:%d",
-							variant.name, id, ri, r.Fired["suspensions"], fi, locs[fi][0]+1, locs[fi][1]+1, sm.Sources[m.src], m.origLine+1, w.file, w.line), prog: p, tape: r.Tape, variant: variant.name})
+						fail(violation{class: "frame-maps-to-wrong-line", msg: fmt.Sprintf("%s build, marker %d (run %d, %d suspensions): stack frame %d at generated %d:%d maps to %s:%d, but the Go statement is at %s:%d: %s",
+							variant.name, id, ri, r.Fired["suspensions"], fi, locs[fi][0]+1, locs[fi][1]+1, sm.Sources[m.src], m.origLine+1, w.file, w.line, stmtText), prog: p, tape: r.Tape, variant: variant.name})
 						break
 					}
 				}
@@ -520,7 +540,7 @@ func Run(tier string, seed int64, workers int) int {
 			continue
 		}
 		reported[v.class] = true
-		prog, _ := json.Marshal(map[string]any{"files": v.prog.Files, "wheres": v.prog.Wheres, "wherev": v.prog.WhereV, "variant": v.variant})
+		prog, _ := json.Marshal(map[string]any{"files": v.prog.Files, "wheres": v.prog.Wheres, "wherev": v.prog.WhereV, "wherealt": v.prog.WhereAlt, "variant": v.variant})
 		rp := &evidence.Replay{Property: "C19", Class: v.class, Message: v.msg, Kind: "c19corpus", Workload: prog, Tape: v.tape, Digest: evidence.Digest(v.class), Seed: seed, FoundAt: tier + " corpus"}
 		path, err := evidence.WriteReplay(jbuild.VerifDir(), rp)
 		if err != nil {
@@ -559,9 +579,10 @@ func Replay(rp *evidence.Replay) int {
 		return gharness.Replay(streamSpec("quick", rp.Seed, 1), rp)
 	}
 	var w struct {
-		Files  map[string]string `json:"files"`
-		Wheres map[int]int       `json:"wheres"`
-		WhereV map[int]bool      `json:"wherev"`
+		Files    map[string]string `json:"files"`
+		Wheres   map[int]int       `json:"wheres"`
+		WhereV   map[int]bool      `json:"wherev"`
+		WhereAlt map[int]int       `json:"wherealt"`
 	}
 	if err := json.Unmarshal(rp.Workload, &w); err != nil {
 		fmt.Fprintln(os.Stderr, err)
@@ -584,7 +605,7 @@ func Replay(rp *evidence.Replay) int {
 	jbuild.WriteFiles(dir, w.Files)
 	res := &corpusResult{counters: map[string]int{}}
 	var mu sync.Mutex
-	checkProgram(env, pool, &seqgen.Program{Files: w.Files, Wheres: w.Wheres, WhereV: w.WhereV}, dir, "replay", 3, res, &mu)
+	checkProgram(env, pool, &seqgen.Program{Files: w.Files, Wheres: w.Wheres, WhereV: w.WhereV, WhereAlt: w.WhereAlt}, dir, "replay", 3, res, &mu)
 	if res.infra != nil {
 		fmt.Fprintln(os.Stderr, res.infra)
 		return 2
